@@ -118,7 +118,8 @@ static void do_push(hist_t * h, const op_t * o) {
                 if (o->len == 0) goto automatic;
                 srcsize = o->len + 1; src = (char *) malloc(srcsize); memcpy(src, t, o->len); src[o->len] = '#'; info_len = o->len; CNT(K_MODE_EXPL); break;
             case M_NULSHORT:
-                srcsize = o->len + 1; src = (char *) malloc(srcsize); memcpy(src, t, o->len); src[o->len] = 0; info_len = o->len + 1 + o->aux; CNT(K_MODE_NULSHORT); break;
+                /* the length bound lies beyond the terminator and the bytes between them are stale, non-zero data (a re-used message buffer) */
+                info_len = o->len + 1 + o->aux; srcsize = info_len; src = (char *) malloc(srcsize); memset(src, '@', srcsize); memcpy(src, t, o->len); src[o->len] = 0; CNT(K_MODE_NULSHORT); break;
             default: automatic:
                 srcsize = o->len + 1; src = (char *) malloc(srcsize); memcpy(src, t, o->len); src[o->len] = 0; info_len = 0; CNT(K_MODE_AUTO);
                 if (o->len > 255) { in.flags |= F_AUTOCUT; eff = 255; }
